@@ -253,6 +253,14 @@ impl TreeSpace {
         let mut next_model: Option<Model> = model.cloned();
         let mut diverged = false;
 
+        if b.ctl.runaway.load(std::sync::atomic::Ordering::SeqCst) {
+            vio.push((
+                format!("{}|runaway", head),
+                format!("{} on {} made more than {} calls into the filesystems (does not terminate)", op.show(), cfgl, CALL_HORIZON),
+                json!({"observed": out.short()}),
+            ));
+            diverged = true;
+        }
         if self.mon.panics {
             if let Outcome::Panic(m) = out {
                 vio.push((format!("{}|panic", head), format!("{} panicked: {}", op.show(), m), json!({"panic": m})));
@@ -267,7 +275,7 @@ impl TreeSpace {
             }
         }
 
-        if self.mon.model && !op.is_observer() {
+        if self.mon.model && !op.is_observer() && !op.is_setter() {
             let masked;
             let after = if self.cfg.has_overlay() {
                 masked = after.without_markers();
